@@ -283,6 +283,15 @@ func (e *Endpoint) AdvertisedMaxFrame() uint32 {
 	return e.advMaxFrame
 }
 
+// SetAdvertisedMaxFrame records a maximum frame size this endpoint enforces from now on
+// (WriteSettings only ever raises it: a lowered value binds the peer once it has
+// acknowledged it, which the caller has to observe).
+func (e *Endpoint) SetAdvertisedMaxFrame(v uint32) {
+	e.mu.Lock()
+	e.advMaxFrame = v
+	e.mu.Unlock()
+}
+
 // AdvertisedMaxFrameLocked is AdvertisedMaxFrame for use inside With/Wait
 // callbacks (the endpoint's lock is already held there).
 func (e *Endpoint) AdvertisedMaxFrameLocked() uint32 { return e.advMaxFrame }
